@@ -4,7 +4,7 @@
    Python code is an explicit lookup whose failure is [Err IndexError]; the three offset-driven main loops run on
    fuel [S (length lines)] and report [Err OutOfFuel] when it runs out. *)
 From Coq Require Import List ZArith String Bool Arith.
-From Verif Require Import Lib.Sexp Model.C12_docstrings Proofs.C12_docstrings Model.C12_regex Gen.C12_regexes Proofs.C12_regex Proofs.C12_regex2 Model.C12_chars Model.C12_run Proofs.C12_chars Model.C12_history Proofs.C12_history.
+From Verif Require Import Lib.Sexp Model.C12_docstrings Proofs.C12_docstrings Model.C12_regex Gen.C12_regexes Proofs.C12_regex Proofs.C12_regex2 Proofs.C12_regex3 Model.C12_chars Model.C12_run Proofs.C12_chars Model.C12_history Proofs.C12_history Model.C12_guards Gen.C12_guards Proofs.C12_guards.
 Import ListNotations.
 Open Scope list_scope. Open Scope nat_scope.
 
@@ -263,3 +263,35 @@ Theorem C12_history_parsed_cached :
     snd (step p pa (fst (exec p pa st1 ops)) OReadParsed) = snd (step p pa st1 OReadParsed).
 Proof. exact history_parsed_cached. Qed.
 Print Assumptions C12_history_parsed_cached.
+
+(* ---- the A2 bound in closed form: a polynomial in the subject length whose degree is the number of unbounded
+   quantifiers along the longest alternative (those of the rest of a delimited iteration included) ---- *)
+Theorem C12_regex_bound2_polynomial :
+  forall r n K, bound2 r n K <= coef2 r * (n + 1) ^ deg2 r * (K + 1).
+Proof. exact bound2_polynomial. Qed.
+Print Assumptions C12_regex_bound2_polynomial.
+
+(* every regular expression of the docstring parsers, every well-formed subject: at most coef2 * (|s|+1)^deg2 steps of
+   the model matcher, with deg2 <= 8 for each of them (5 is the largest at present) *)
+Theorem C12_repo_regexes_polynomial :
+  forall key x s, In (key, x) all_regexes -> wf_text s ->
+    fst (re_match_c (rx_ic x) (rx_re x) s) <= coef2 (rx_re x) * (List.length s + 1) ^ deg2 (rx_re x)
+    /\ deg2 (rx_re x) <= 8.
+Proof. exact repo_regexes_polynomial. Qed.
+Print Assumptions C12_repo_regexes_polynomial.
+
+(* ---- look-ups on the parent and annotation compilation: for every site found in the parsers (table regenerated
+   from /repo: what the operation can raise by its shape, what the enclosing suppress / except clauses catch), every
+   exception class that can be raised is a subclass of one that is caught ---- *)
+Theorem C12_parent_lookups_guarded :
+  forall name raised caught, In (name, raised, caught) guard_sites ->
+    forall e, In e raised -> exists c, In c caught /\ subclass e c = true.
+Proof. exact repo_guards_sound. Qed.
+Print Assumptions C12_parent_lookups_guarded.
+
+(* Sphinx at character level: the field parser s_parse_full is a total function by construction; the control-flow
+   result over the features computed from the characters always exists *)
+Theorem C12_sphinx_total_at_character_level :
+  forall cl, exists secs, s_parse (features cl) = Ok secs.
+Proof. intros cl. apply sphinx_total. Qed.
+Print Assumptions C12_sphinx_total_at_character_level.
